@@ -210,6 +210,19 @@ refdec_call(struct refdec *d, const unsigned char *in, size_t n, size_t *pos, un
     }
 }
 
+/* a context is set up by the initialisation function or by the header's static initialisers, alternately */
+static unsigned ctx_toggle;
+static void
+ctx_setup(RFC1055Context *c, int sof)
+{
+    if ((ctx_toggle++ + vh_unit_salt) & 1u) {
+        const RFC1055Context with_sof = RFC1055_CONTEXT_INIT_WITH_SOF, classic = RFC1055_CONTEXT_INIT_DEFAULT;
+        *c = sof ? with_sof : classic;
+    } else {
+        rfc1055_context_init(c, sof ? RFC1055_WITH_SOF : RFC1055_DEFAULT);
+    }
+}
+
 /* ---- checks ---- */
 
 static const char *
@@ -227,7 +240,7 @@ check_payload(const unsigned char *p, size_t n, int sof, int srcchunk, int sinkc
 {
     const char *key = modekey(sof, srcchunk, sinkchunk);
     RFC1055Context ctx;
-    rfc1055_context_init(&ctx, sof ? RFC1055_WITH_SOF : RFC1055_DEFAULT);
+    ctx_setup(&ctx, sof);
     Source src;
     Sink snk;
     struct tsrc ts;
@@ -262,7 +275,7 @@ check_payload(const unsigned char *p, size_t n, int sof, int srcchunk, int sinkc
     mk_source(&s2, &t2, srcchunk, enc, encn);
     mk_sink(&snk, &k2, sinkchunk);
     RFC1055Context dctx;
-    rfc1055_context_init(&dctx, sof ? RFC1055_WITH_SOF : RFC1055_DEFAULT);
+    ctx_setup(&dctx, sof);
     rc = rfc1055_decode(&dctx, &s2, &snk);
     if (rc != 1 || k2.n != n || memcmp(k2.buf, p, n) != 0 || t2.pos != encn)
         vh_fail("roundtrip", key, "payload=%s encoded=%s decode rc=%d payload=%s consumed=%zu/%zu", vh_hex(p, n),
@@ -276,7 +289,7 @@ check_raw(const unsigned char *in, size_t n, int sof, int srcchunk, int sinkchun
 {
     const char *key = modekey(sof, srcchunk, sinkchunk);
     RFC1055Context ctx;
-    rfc1055_context_init(&ctx, sof ? RFC1055_WITH_SOF : RFC1055_DEFAULT);
+    ctx_setup(&ctx, sof);
     struct refdec rd;
     refdec_init(&rd, sof);
     unsigned char *pin = vh_arena_copy(in, n);
@@ -351,7 +364,7 @@ check_garbage(const unsigned char *g, size_t gn, int sof, int srcchunk, int sink
         sn += ref_encode(sof, PAY[pi[k]].p, PAY[pi[k]].n, stream + sn);
     unsigned char *pin = vh_arena_copy(stream, sn);
     RFC1055Context ctx;
-    rfc1055_context_init(&ctx, sof ? RFC1055_WITH_SOF : RFC1055_DEFAULT);
+    ctx_setup(&ctx, sof);
     Source src;
     Sink snk;
     struct tsrc ts;
@@ -419,7 +432,7 @@ check_errors(const unsigned char *p, size_t n, int sof, int srcchunk, int sinkch
     static struct tsink tk;
     /* encoder: source error at position k */
     for (size_t k = 0; k <= n; k++) {
-        rfc1055_context_init(&ctx, sof ? RFC1055_WITH_SOF : RFC1055_DEFAULT);
+        ctx_setup(&ctx, sof);
         mk_source(&src, &ts, srcchunk, p, n);
         mk_sink(&snk, &tk, sinkchunk);
         ERR_SRC = err_codes[(k) % NERR];
@@ -433,7 +446,7 @@ check_errors(const unsigned char *p, size_t n, int sof, int srcchunk, int sinkch
     }
     /* encoder: sink error at octet k of the output */
     for (size_t k = 0; k < encn; k++) {
-        rfc1055_context_init(&ctx, sof ? RFC1055_WITH_SOF : RFC1055_DEFAULT);
+        ctx_setup(&ctx, sof);
         mk_source(&src, &ts, srcchunk, p, n);
         mk_sink(&snk, &tk, sinkchunk);
         ERR_SRC = err_codes[(k) % NERR];
@@ -450,7 +463,7 @@ check_errors(const unsigned char *p, size_t n, int sof, int srcchunk, int sinkch
     }
     /* decoder: source error at position k of the encoding */
     for (size_t k = 0; k < encn; k++) {
-        rfc1055_context_init(&ctx, sof ? RFC1055_WITH_SOF : RFC1055_DEFAULT);
+        ctx_setup(&ctx, sof);
         mk_source(&src, &ts, srcchunk, enc, encn);
         mk_sink(&snk, &tk, sinkchunk);
         ERR_SRC = err_codes[(k) % NERR];
@@ -464,7 +477,7 @@ check_errors(const unsigned char *p, size_t n, int sof, int srcchunk, int sinkch
     }
     /* decoder: sink error at octet k of the payload */
     for (size_t k = 0; k < n; k++) {
-        rfc1055_context_init(&ctx, sof ? RFC1055_WITH_SOF : RFC1055_DEFAULT);
+        ctx_setup(&ctx, sof);
         mk_source(&src, &ts, srcchunk, enc, encn);
         mk_sink(&snk, &tk, sinkchunk);
         ERR_SRC = err_codes[(k) % NERR];
@@ -505,7 +518,7 @@ check_resume(const unsigned char *g, size_t gn, int sof, int srcchunk, int sinkc
     for (size_t pos = 0; pos <= sn; pos++) {
         unsigned char *pin = vh_arena_copy(stream, sn);
         RFC1055Context ctx;
-        rfc1055_context_init(&ctx, sof ? RFC1055_WITH_SOF : RFC1055_DEFAULT);
+        ctx_setup(&ctx, sof);
         Source src;
         Sink snk;
         struct tsrc ts;
